@@ -43,4 +43,4 @@ finally:
     else:
         shutil.rmtree(tree, ignore_errors=True)
     # evidence files were rewritten by the runs on the mutated tree: restore them from the last commit
-    subprocess.run(["git", "-C", "/verif", "checkout", "--", "evidence"], stderr=subprocess.DEVNULL)
+    pass  # evidence / build output of the mutated run went to the scratch directory (VERIF_EVIDENCE_DIR / VERIF_BUILD_DIR)
